@@ -63,7 +63,7 @@ def one(cand):
         for p in PROPS:
             e = dict(env, SPV_REPO=mut)
             try:
-                rc, out = sh(f"./check {p} --no-write", cwd="/verif", env=e, timeout=900)
+                rc, out = sh(f"./check {p} --no-write", cwd=os.environ.get("SPV_CHECK_ROOT", "/verif"), env=e, timeout=900)
             except subprocess.TimeoutExpired:
                 rc, out = 124, "TIMEOUT"
             first = ""
